@@ -201,6 +201,31 @@ func (c09) Runs(tier string) int { return tierLen(tier, 1200, 16000) }
 // opsWithFlushAt builds a history for data of length total whose Flush calls
 // sit at the given byte offsets (sorted, may repeat), with writes split at
 // random.
+// absAnchors are absolute stream offsets at which an accelerated Writer's
+// input buffer fills or slides for the two window sizes (2W, 2W+258, then every
+// W+258 / W), i.e. where "how much of this Write still fits" changes.
+var absAnchors = func() []int {
+	var a []int
+	for _, w := range []int{4096, 32768} {
+		a = append(a, w, 2*w, 2*w+258)
+		for k := 1; k <= 6; k++ {
+			a = append(a, 2*w+258+k*(w+258), 2*w+k*w)
+		}
+	}
+	a = append(a, 65536, 131072)
+	sortInts(a)
+	return a
+}()
+
+func nextAnchor(pos int) int {
+	for _, a := range absAnchors {
+		if a > pos {
+			return a
+		}
+	}
+	return -1
+}
+
 func opsWithFlushAt(r *kern.Rng, total int, flushAt []int, biased bool) []scen.WOp {
 	var ops []scen.WOp
 	pos := 0
@@ -208,7 +233,13 @@ func opsWithFlushAt(r *kern.Rng, total int, flushAt []int, biased bool) []scen.W
 		for pos < upto {
 			left := upto - pos
 			var n int
-			if biased {
+			if a := nextAnchor(pos); a > 0 && a <= upto && r.Pct(35) {
+				// end this Write exactly at (or one byte around) a buffer threshold
+				n = a - pos + r.Pick(0, 0, 0, -1, 1)
+				if n < 0 {
+					n = 0
+				}
+			} else if biased {
 				switch r.Intn(5) {
 				case 0:
 					n = 0
@@ -270,7 +301,15 @@ func (c09) Gen(r *kern.Rng, tier string, idx int) *Trace {
 	var fl []int
 	nf := r.Pick(0, 0, 1, 2, 5)
 	for i := 0; i < nf; i++ {
-		fl = append(fl, r.Intn(total+1))
+		f := r.Intn(total + 1)
+		if r.Pct(50) {
+			// just below / at a buffer threshold
+			f = absAnchors[r.Intn(len(absAnchors))] - r.Pick(0, 1, 2, 100, 257, 258, 259, 300) + r.Pick(0, 0, 1)
+			if f < 0 || f > total {
+				f = r.Intn(total + 1)
+			}
+		}
+		fl = append(fl, f)
 	}
 	sortInts(fl)
 	sc.Ops = opsWithFlushAt(r, total, fl, true)
